@@ -131,3 +131,26 @@ package sniffing
 //@   modifies *
 //@   at return 1 assert s.buf.Len() == 0 || !unicode.IsPrint(s.buf.Bytes()[0])
 //@   at call sniffHTTPHostHeader#1 assert a0.$base == s.buf.Bytes().$base && len(a0) == s.buf.Len()
+
+// QUIC: once the buffered datagrams have been consumed as Initial packets, the read cursor is advanced past
+// them BEFORE the ClientHello walk - also when the walk then asks for more data - so that the next attempt
+// does not decrypt and append the same CRYPTO fragments again.
+//@ func (*Sniffer).SniffQuic
+//@   anchorsonly
+//@   nonilcheck
+//@   dyncalls noeffect
+//@   modifies *
+//@   at call sniffQuicBlock#1 assert a0 == s && a1 == s.quicCryptos
+//@   ghostfn buffered() int
+//@   at call Buffer).Len#1 assume-after result == buffered()
+//@   at call NewLinearLocator#1 assert calls("Buffer).Len") == 1 && s.quicNextRead == buffered()
+//@   at call NewLinearLocator#1 assert a0 == s.quicCryptos
+
+// TCP: "need more" is never handed to the caller as the answer - every time a sniffer asks for more data the
+// loop reads again (returns counted in source order; 4 is the final `return d, err`).
+//@ func (*Sniffer).SniffTcp
+//@   anchorsonly
+//@   nonilcheck
+//@   dyncalls noeffect
+//@   modifies *
+//@   at return 4 before-defers assert !errors.Is(err, ErrNeedMore)
